@@ -181,7 +181,7 @@ Inductive build_err :=
 | EEmptySamplesMap
 | EUnknownSample (s : name)
 | EProjection (e : perr)
-| EPanicShape.                      (* unwrap on None in Map::shape (C17) *)
+| EInconsistentSamples.             (* a sample defined more than once with different populations left a population empty *)
 
 Record reader_cfg := { r_map : smap; r_cols : list name; r_pto : option (list nat); r_shape : shape }.
 
@@ -191,20 +191,17 @@ Definition build_reader (cols : list name) (samples : samples_arg) (project : op
   match m with
   | [] => inr EEmptySamplesMap
   | _ :: _ =>
-    match find (fun s => negb (existsb (name_eqb s) cols)) (map fst m) with
-    | Some s => inr (EUnknownSample s)
-    | None =>
-      match project with
+    (* Map::populations_are_nonempty (repair of the unwrap panic in Map::shape): every id has a sample *)
+    match map_shape m with
+    | None => inr EInconsistentSamples
+    | Some from =>
+      match find (fun s => negb (existsb (name_eqb s) cols)) (map fst m) with
+      | Some s => inr (EUnknownSample s)
       | None =>
-        match map_shape m with
-        | None => inr EPanicShape
-        | Some sh => inl {| r_map := m; r_cols := cols; r_pto := None; r_shape := sh |}
-        end
-      | Some p =>
-        let to := project_arg_shape p in
-        match map_shape m with
-        | None => inr EPanicShape
-        | Some from =>
+        match project with
+        | None => inl {| r_map := m; r_cols := cols; r_pto := None; r_shape := from |}
+        | Some p =>
+          let to := project_arg_shape p in
           if negb (length from =? length to) then inr (EProjection (PUnequalDimensions (length from) (length to)))
           else match first_smaller 0 from to with
                | Some (d, f, t) => inr (EProjection (PInvalidProjection d f t))
